@@ -304,6 +304,32 @@ def bigarr_stream(rng, pid):
     return cases
 
 
+def last_stream(rng, pid):
+    """IMPL-ONLY: `Iterator::last()` on a chunk's value iterator after `k` calls of `next()` (also behind `peekable`, `skip`,
+    `chain`, ... of std), one-shot and buffered, with a stale element left in the reused buffer by an earlier chunk"""
+    cases = []
+    i = 0
+    for kind in ("vec", "array", "iter", "slice", "range", "iterref"):
+        for L in (4, 6, 7):
+            for n in (3, 4):
+                for k in (0, 1, 2, 4):
+                    tok = "%d+last" % k
+                    for style in (0, 1, 2):
+                        c = make_source(rng, "%s-last%d" % (pid, i), kind, L, hint=rng.choice(["exact", "inexact"]))
+                        if style == 0:
+                            c.threads = [["chunk %d %s" % (n, tok), "next", "chunk %d %s" % (n, tok)]]
+                        elif style == 1:
+                            c.threads = [["bufnew %d" % n, "bufnext 1", "bufnext %s" % tok, "bufnext %s" % tok]]
+                        else:
+                            c.threads = [["bufnew %d" % n, "bufnext 0", "bufnext %s" % tok], ["next"]]
+                            c.sched = rand_sched(rng, 2, 8)
+                        c.owner = "drop"
+                        c.tags = {"implonly", "nomodel"}
+                        cases.append(c)
+                        i += 1
+    return cases
+
+
 def zst_stream(rng, pid):
     """zero-sized element types: `ptr.add(i) == ptr`, slices of any length occupy no memory"""
     cases = []
@@ -647,12 +673,12 @@ def stream_for0(pid, tier, seed):
     big = tier != "quick"
     if pid in ("C01", "C02", "C04"):
         return defects + pulls_stream(rng, tier, pid) + half_stream(rng, pid) + nth_stream(rng, pid) + liar_stream(rng, pid) + zst_stream(rng, pid) + pod_stream(rng, pid) + \
-            wrapper_nth_stream(rng, pid)
+            wrapper_nth_stream(rng, pid) + last_stream(rng, pid)
     if pid == "C03":
         cases = defects + pulls_stream(rng, tier, pid, prof=dict(loops=False, query=False, drain=0.2))
         cases += half_stream(rng, pid) + nth_stream(rng, pid) + liar_stream(rng, pid) + zst_stream(rng, pid) + pod_stream(rng, pid)
         # a chunk pull in flight while another thread skips: the chunk it had reserved is still delivered in full
-        cases += inflight_stream(rng, pid, tier)
+        cases += inflight_stream(rng, pid, tier) + last_stream(rng, pid)
         return cases
     if pid == "C05":
         cases = defects + pulls_stream(rng, tier, pid, prof=dict(nonfused=True), exh=False, n_random=800 if not big else 30000)
